@@ -3,7 +3,7 @@
 (* laws are consistent: applied to the results of a flattened collection they give the same value as       *)
 (* applied level by level (sum, min, union are associative; map and filter commute with nesting one level). *)
 EXTENDS Generic, TLC
-Fns == {"Clone", "Round", "Round.default", "project.Geometry", "simplify.DouglasPeucker", "simplify.Visvalingam", "simplify.Radial",
+Fns == {"Clone", "Equal.view", "Round", "Round.default", "project.Geometry", "simplify.DouglasPeucker", "simplify.Visvalingam", "simplify.Radial",
         "planar.Area", "planar.Length", "planar.CentroidArea.area", "planar.DistanceFrom", "planar.DistanceFromWithIndex", "planar.DistanceFrom.in", "planar.DistanceFromWithIndex.in",
         "geo.Area", "geo.Length", "geo.LengthHaversine", "clip.Geometry", "clip.Geometry.wide", "smartclip.Geometry", "tilecover.Geometry",
         "wkb.Marshal", "ewkb.Marshal", "wkt.Marshal", "geojson.Geometry", "geojson.Feature"}
